@@ -4,6 +4,7 @@ package main
 //
 //   matcher pending <lines> <reqs>   => <query served last> <items it saw> <matched indices>
 //       reqs: ";"-joined  <query bytes>~<cancel 0|1>~<upto>   posted before the loop runs, in this order
+//   matcher conc <lines> <queries> <sort> <tac> <yield>  => ";"-joined <query>~<snapshot count>~<indices>~<frozen>
 //   matcher scan <lines> <query> <sort> <tac> <partitions> <cancel 0|1|2>  => <cancelled> <hasMerger> <indices>
 
 import (
@@ -48,6 +49,24 @@ func matcherEval(op string, a []string) string {
 			xs[i] = int(v)
 		}
 		return fmt.Sprintf("%d %d %s", b2i(cancelled), b2i(has), encInts(xs))
+	case "conc":
+		qs := []string{}
+		for _, q := range decStrList(a[1]) {
+			qs = append(qs, string(q))
+		}
+		recs := fzf.VerifConcurrent(lines, qs, a[2] == "1", a[3] == "1", atoi(a[4]))
+		parts := []string{}
+		for _, r := range recs {
+			xs := make([]int, len(r.Idx))
+			for i, v := range r.Idx {
+				xs[i] = int(v)
+			}
+			parts = append(parts, fmt.Sprintf("%s~%d~%s~%d", encStr(r.Query), r.Count, encInts(xs), b2i(r.Frozen)))
+		}
+		if len(parts) == 0 {
+			return "_"
+		}
+		return strings.Join(parts, ";")
 	}
 	panic("bad op")
 }
@@ -60,6 +79,24 @@ func matcherGen(r *rand.Rand, count int, emit func(op string, args ...string)) {
 			lines = append(lines, []byte(patWords[r.Intn(len(patWords))]+[]string{"", " ", "/"}[r.Intn(3)]+patWords[r.Intn(len(patWords))]))
 		}
 		qs := []string{"a", "b", "fo", "ba", "o", "", "x", "foo", "!a", "a | b"}
+		if r.Intn(4) == 0 {
+			// searches through the real loop while a loader goroutine is still pushing
+			big := [][]byte{}
+			total := []int{150, 450, 1200, 3000}[r.Intn(4)]
+			for k := 0; k < total; k++ {
+				big = append(big, []byte(patWords[r.Intn(len(patWords))]+[]string{"", " ", "/"}[r.Intn(3)]+patWords[r.Intn(len(patWords))]))
+			}
+			nq := 1 + r.Intn(3)
+			cq := [][]byte{}
+			for k := 0; k < nq; k++ {
+				cq = append(cq, []byte(qs[r.Intn(len(qs))]))
+			}
+			if r.Intn(2) == 0 { // a query and its extension: cache narrowing
+				cq = append(cq, []byte("f"), []byte("fo"), []byte("foo"))
+			}
+			emit("conc", encStrList(big), encStrList(cq), itoa(r.Intn(2)), itoa(r.Intn(2)), itoa([]int{0, 1, 7, 50}[r.Intn(4)]))
+			continue
+		}
 		if r.Intn(2) == 0 {
 			// two or three requests pending at once: an older one and the newest
 			k := 2 + r.Intn(2)
